@@ -39,6 +39,12 @@ async def expect_async(expecter, timeout=None):
         return await asyncio.wait_for(pattern_waiter.fut, timeout)
     except asyncio.TimeoutError as exc:
         transport.pause_reading()
+        fut = pattern_waiter.fut
+        if fut.done() and not fut.cancelled():
+            # The match (or EOF) arrived in the same event loop iteration in
+            # which the deadline fired: it has already been consumed from the
+            # buffers, so report it instead of a TIMEOUT that loses the text.
+            return fut.result()
         return expecter.timeout(exc)
 
 
